@@ -36,7 +36,8 @@ ASSUMPTIONS = ["trusted base: vf.engines.netsim.SimTransport records transport w
                "inputs contain no CR (excluded by the statement)"]
 SHARDS = {"quick": 4, "thorough": 16}
 FLOORS = {"peer_comparisons": 2000, "wire_checks": 200, "iac_data_bytes": 500, "lf_data_bytes": 300,
-          "writesequence_calls": 100, "splits_inside_escape_pair": 200}
+          "writesequence_calls": 100, "splits_inside_escape_pair": 200,
+          "session_peer_comparisons": 2000, "session_commands_sent": 1000, "echo_comparisons": 2000, "refusals_observed": 500}
 READY = True
 
 KNOWN_WS = "telnet-writesequence-unescaped"
@@ -126,12 +127,19 @@ def make_side():
     from twisted.conch import telnet
 
     class Rec(telnet.TelnetProtocol):
+        echo = False
+
         def __init__(self):
             self.got = []
             self.events = []
 
         def dataReceived(self, data):
             self.got.append(data)
+            if self.echo:  # re-entrant application: writes from inside the callback
+                if len(data) % 2:
+                    self.transport.write(data)
+                else:
+                    self.transport.writeSequence([data[:1], data[1:]])
 
         def unhandledCommand(self, command, argument):
             self.events.append(("unhandledCommand", command, argument))
@@ -305,8 +313,127 @@ def check_case(ctx, ops, mode, rng, only_cuts=None):
             break
 
 
+# ------------------------------------------------------------------ data interleaved with real commands, echoing peer
+
+def gen_session(rng, total):
+    """ops: write / seq as before plus ("will"|"do", option) and ("neg", option, payload) calls made by
+    the sending application between the writes (each option used once, so every call reaches the wire)."""
+    ops = gen_ops(rng, total)
+    opts = rng.sample(range(1, 120), 6)
+    out = []
+    for op in ops:
+        while opts and rng.random() < 0.35:
+            o = bytes([opts.pop()])
+            r = rng.random()
+            out.append(("will", o) if r < 0.3 else ("do", o) if r < 0.6 else ("neg", o, gen_bytes(rng, rng.randint(0, 12)).replace(b"\r", b"A")))
+        out.append(op)
+    if opts and rng.random() < 0.5:
+        out.append(("neg", bytes([opts.pop()]), gen_bytes(rng, rng.randint(0, 6))))
+    return out
+
+
+def session_case(ctx, ops, rng, cuts=None):
+    """Sender A interleaves data with negotiation commands; receiver B refuses every option and echoes
+    all data from inside dataReceived; B's output goes back to A.  Judged: the data (both ways), the
+    kind/option/order of the callbacks the commands must trigger, no exception.  Counted only: the
+    subnegotiation payload (the statement is about data written with write/writeSequence)."""
+    a, atr = make_side()
+    dataops = [o for o in ops if o[0] in ("write", "seq")]
+    data = ops_data(dataops)
+    expected, refusals = [], []
+    for o in ops:
+        if o[0] == "write":
+            a.protocol.transport.write(o[1])
+        elif o[0] == "seq":
+            a.protocol.transport.writeSequence(list(o[1]))
+        elif o[0] == "neg":
+            a.requestNegotiation(o[1], o[2])
+            expected.append(("unhandledSubnegotiation", o[1]))
+        else:
+            getattr(a, o[0])(o[1]).addBoth(lambda r, o=o: refusals.append((o[0], getattr(getattr(r, "type", None), "__name__", repr(r)))))
+            expected.append(("enableRemote" if o[0] == "will" else "enableLocal", o[1]))
+    wire = bytes(atr.written)
+    atr.take()
+    ctx.evaluated()
+    ctx.count("session_cases")
+    ctx.count("session_commands_sent", len(expected))
+    ctx.distinct(("session", tuple((o[0],) + tuple(bytes(x) if isinstance(x, bytes) else tuple(x) for x in o[1:]) for o in ops)))
+    if cuts is not None:
+        plans = [[wire[i:j] for i, j in zip([0] + cuts, cuts + [len(wire)])]]
+    elif len(wire) <= 40:
+        plans = [[wire]] + list(all_splits(wire, 1))
+    else:
+        plans = [[wire], random_split(rng, wire), random_split(rng, wire, 7), [wire[i:i + 1] for i in range(len(wire))]]
+    for pieces in plans:
+        b, btr = make_side()
+        b.protocol.echo = True
+        exc = None
+        try:
+            for p in pieces:
+                if p:
+                    b.dataReceived(p)
+        except Exception as e:  # noqa: BLE001
+            exc = "%s: %s" % (type(e).__name__, e)
+        ctx.count("session_peer_comparisons")
+        ctx.count("segments_delivered", len(pieces))
+        got = b"".join(b.protocol.got)
+        events = [(ev[0], ev[1]) for ev in b.protocol.events]
+        cutpos = []
+        pos = 0
+        for x in pieces[:-1]:
+            pos += len(x)
+            cutpos.append(pos)
+        witness = {"family": "session", "ops_hex": [[o[0]] + [x.hex() if isinstance(x, bytes) else [y.hex() for y in x] for x in o[1:]] for o in ops],
+                   "wire": wire, "cuts": cutpos, "data": data, "received": got, "callbacks": b.protocol.events[:8], "expected_callbacks": expected[:8], "exception": exc}
+        if exc is not None:
+            ctx.violation("session-receiver-exception", "dataReceived raised on data interleaved with well-formed commands: %s" % exc, witness)
+            return
+        if got != data:
+            ctx.violation("session-data-mismatch", "application data interleaved with negotiation commands did not arrive intact", witness)
+            return
+        if events != expected:
+            ctx.violation("session-callbacks-differ", "the commands sent between the data did not trigger exactly the corresponding callbacks, in order", witness)
+            return
+        payloads = [(ev[1], b"".join(ev[2])) for ev in b.protocol.events if ev[0] == "unhandledSubnegotiation"]
+        if payloads != [(o[1], o[2]) for o in ops if o[0] == "neg"]:
+            ctx.count("subnegotiation_payload_differs_unjudged")
+        else:
+            ctx.count("subnegotiation_payloads_equal", len(payloads))
+        # B's output (refusals + echo written re-entrantly) back to A
+        back = bytes(btr.written)
+        try:
+            for p in random_split(rng, back, 5) if back else ():
+                a.dataReceived(p)
+        except Exception as e:  # noqa: BLE001
+            ctx.violation("session-receiver-exception", "dataReceived raised on the peer's replies + echo: %s: %s" % (type(e).__name__, e), dict(witness, back=back))
+            return
+        echoed = b"".join(a.protocol.got)
+        ctx.count("echo_comparisons")
+        ctx.count("echo_bytes", len(echoed))
+        if echoed != data or a.protocol.events:
+            ctx.violation("echo-data-mismatch", "data echoed by the peer from inside its dataReceived callback did not come back intact",
+                          dict(witness, back=back, echoed=echoed, sender_callbacks=a.protocol.events[:5]))
+            return
+        ctx.count("refusals_observed", len(refusals))
+        a, atr = make_side()  # fresh A for the next plan: replay the ops (cheap) so Deferred state is clean
+        refusals = []
+        for o in ops:
+            if o[0] == "write":
+                a.protocol.transport.write(o[1])
+            elif o[0] == "seq":
+                a.protocol.transport.writeSequence(list(o[1]))
+            elif o[0] == "neg":
+                a.requestNegotiation(o[1], o[2])
+            else:
+                getattr(a, o[0])(o[1]).addBoth(lambda r, o=o: refusals.append((o[0], getattr(getattr(r, "type", None), "__name__", repr(r)))))
+        atr.take()
+
+
 def run(ctx):
-    for i in ctx.cases(12000, 500000):
+    for i in ctx.cases(1500, 60000):
+        rng = ctx.case_rng("session", i)
+        session_case(ctx, gen_session(rng, rng.choice((rng.randint(1, 10), rng.randint(5, 60), rng.randint(60, 600)))), rng)
+    for i in ctx.cases(9000, 400000):
         rng = ctx.case_rng(i)
         r = i % 10
         if r < 4:
@@ -327,5 +454,11 @@ def run(ctx):
 
 def replay(ctx, w):
     x = w["witness"]
+    if x.get("family") == "session":
+        ops = []
+        for o in x["ops_hex"]:
+            ops.append((o[0],) + tuple(bytes.fromhex(v) if isinstance(v, str) else [bytes.fromhex(y) for y in v] for v in o[1:]))
+        session_case(ctx, ops, ctx.case_rng("replay"), cuts=list(x.get("cuts", [])))
+        return
     ops = unhexops(x["ops_hex"])
     check_case(ctx, ops, "small", ctx.case_rng("replay"), only_cuts=list(x.get("cuts", [])))
